@@ -52,14 +52,17 @@ func TypeSig(t *XType) string {
 		fmt.Fprintf(&sb, " posix=%d", t.Posix)
 	}
 	if len(t.Union) > 0 {
-		sb.WriteString(" union{")
-		for i, u := range t.Union {
-			if i > 0 {
-				sb.WriteString(" | ")
-			}
-			sb.WriteString(TypeSig(u))
+		// The library drops a member that equals an earlier one, where "equal"
+		// ignores the type's name and the members of a bits type (documented in
+		// YangType.Equal): members are compared as a set of name-less signatures.
+		set := map[string]bool{}
+		for _, u := range t.Union {
+			m := *u
+			m.Name = ""
+			m.Bits = nil
+			set[TypeSig(&m)] = true
 		}
-		sb.WriteString("}")
+		sb.WriteString(" union{" + strings.Join(SortedNames(set), " | ") + "}")
 	}
 	return sb.String()
 }
